@@ -414,6 +414,76 @@ def r_bytesrepr(ctx):
                                       "text, not the bytes it denotes" % (fi.qual, srcs[:70]))
 
 
+UNESCAPE_CASES = [
+    # (literal content between the quotes, decoded string or None = not a text literal of RFC 8610 / 9682)
+    ("abc", "abc"), ("a\\nb", "a\nb"), ("\\t\\r\\b\\f", "\t\r\x08\x0c"), ("q\\\"x", "q\"x"), ("b\\\\s", "b\\s"), ("s\\/", "s/"),
+    ("\\u0041", "A"), ("\\u00e9", "\u00e9"), ("\\u{41}", "A"), ("\\u{1F600}", "\U0001F600"), ("\\u{10FFFF}", "\U0010FFFF"),
+    ("\\uD83D\\uDE00", "\U0001F600"), ("x\\uD83C\\uDC73y", "x\U0001F073y"),
+    ("\\uD83D", None), ("\\uD83Dx", None), ("\\uD83D\\u0041", None), ("\\uD800\\uD800", None), ("\\uDC00", None), ("\\uDE00\\uD83D", None),
+    ("\\u{110000}", None), ("\\u{D800}", None), ("\\u{FFFFFFFFF}", None),
+]
+
+
+def r_unescape(ctx):
+    from absint import PyIter
+    rid = "C07.unescape"
+    ctx.rule(rid, "try_unescape_text decodes each escape of a text literal to the character RFC 8610 / RFC 9682 give it (simple escapes, "
+                  "\\uXXXX, surrogate pairs, \\u{...}) and rejects what is no Unicode scalar value: an unpaired or wrongly paired surrogate, a "
+                  "code point above U+10FFFF, an over-long hex number (abstract evaluation of the source on a table of literals)", floor=20)
+    f = ctx.facts
+    fi = f.fn(B, "try_unescape_text")
+
+    def text_of(v):
+        if isinstance(v, tuple) and v[:1] == ("str",):
+            return v[1]
+        if isinstance(v, list):
+            return "".join(text_of(x) or "" for x in v)
+        return getattr(v, "s", None)
+
+    def on_call(kind, name, node, args, recv):
+        if kind == "method":
+            if name == "chars" and isinstance(recv, tuple) and recv[:1] == ("str",):
+                return PyIter([("str", c) for c in recv[1]])
+            if name == "push" and isinstance(recv, absint.MutList) and getattr(recv, "kind", "") == "str":
+                return NotImplemented
+        if kind == "fn" and name:
+            b = name.split("::")[-1]
+            if b == "from_str_radix":
+                t = text_of(args[0])
+                try:
+                    v = int(t, args[1])
+                    return ("Ok", v) if 0 <= v < 2**32 and t and not t.startswith(("+", "-")) else ("Err", OPAQUE)
+                except Exception:
+                    return ("Err", OPAQUE)
+            if b == "from_u32" and isinstance(args[0], int):
+                v = args[0]
+                return ("Some", ("str", chr(v))) if 0 <= v <= 0x10FFFF and not (0xD800 <= v <= 0xDFFF) else ("None",)
+        return NotImplemented
+    for lit, want in UNESCAPE_CASES:
+        it = Interp(env={"text": ("str", lit)}, on_call=on_call, max_steps=400000)
+        try:
+            try:
+                res = it.block(fi.node["body"])
+            except Return as r:
+                res = r.v
+        except Unknown as e:
+            ctx.incomplete_msg(rid, "%r: %s" % (lit, e))
+            continue
+        got = None
+        if isinstance(res, tuple) and res[0] == "Some":
+            got = text_of(res[1])
+        elif res == ("None",):
+            got = None
+        else:
+            ctx.incomplete_msg(rid, "%r: result %r" % (lit, res))
+            continue
+        ctx.site(rid, lit, B, fi.line, {"decoded": got if got is None else got.encode("unicode_escape").decode(), "rfc": want if want is None else want.encode("unicode_escape").decode()})
+        if got != want:
+            cls = "accepts-non-scalar" if want is None else ("rejects-valid" if got is None else "wrong-character")
+            ctx.violation(rid, "%s|%s" % (cls, lit[:14]), B, fi.line, "try_unescape_text(%r) gives %r; RFC 8610/9682: %s"
+                          % (lit, got, "not a text literal (rejected)" if want is None else repr(want)))
+
+
 def r_slices(ctx):
     rid = "C07.slices"
     ctx.rule(rid, "in convert_value_to_type2 / convert_bytes_value_to_type2 the slice `&text[a..text.len()-b]` that strips the delimiters of a "
@@ -472,3 +542,4 @@ def run(ctx):
     ctx.guarded("C07.discipline", r_discipline)
     ctx.guarded("C07.slices", r_slices)
     ctx.guarded("C07.bytesrepr", r_bytesrepr)
+    ctx.guarded("C07.unescape", r_unescape)
